@@ -1,2 +1,493 @@
+//! C06: state rebuilt from the audit log equals the live state (O-REBUILD).
+//!
+//! For every event-sourced entity three views are compared:
+//! (a) the live manager's view,
+//! (b) a fresh store on the same storage (latest snapshot + later commands),
+//! (c) a fresh store on a copy of the storage with every snapshot removed
+//!     (init + all commands).
+//! Replays run under `catch_unwind`; a panic or an error is a violation.
+
+use serde_json::Value;
+use krill::commons::eventsourcing::{Aggregate, AggregateStore};
+use krill::commons::storage::{Ident, StorageSystem};
+use krill::constants::{
+    CASERVER_NS, PROPERTIES_NS, PUBSERVER_NS, SIGNERS_NS, TA_PROXY_SERVER_NS,
+    TA_SIGNER_SERVER_NS,
+};
 use crate::history::Runner;
-pub fn check(_r: &mut Runner) { }
+use crate::hooks;
+use crate::world::{guarded, Guarded};
+
+/// Removes the two wall-clock fields that an `apply` fills from the clock.
+fn mask(value: &mut Value) {
+    match value {
+        Value::Object(map) => {
+            map.remove("last_key_change");
+            map.remove("since");
+            for v in map.values_mut() {
+                mask(v);
+            }
+        }
+        Value::Array(items) => {
+            for v in items.iter_mut() {
+                mask(v);
+            }
+        }
+        _ => { }
+    }
+}
+
+/// Sorts arrays (API lists built from hash maps have no defined order).
+fn sort_arrays(value: &mut Value) {
+    match value {
+        Value::Object(map) => {
+            for v in map.values_mut() {
+                sort_arrays(v);
+            }
+        }
+        Value::Array(items) => {
+            for v in items.iter_mut() {
+                sort_arrays(v);
+            }
+            items.sort_by_key(|v| v.to_string());
+        }
+        _ => { }
+    }
+}
+
+fn first_difference(a: &Value, b: &Value, path: &str) -> Option<String> {
+    match (a, b) {
+        (Value::Object(x), Value::Object(y)) => {
+            for (k, v) in x {
+                match y.get(k) {
+                    Some(w) => {
+                        if let Some(d) = first_difference(
+                            v, w, &format!("{path}/{k}")
+                        ) {
+                            return Some(d)
+                        }
+                    }
+                    None => return Some(format!("{path}/{k}: missing in second")),
+                }
+            }
+            for k in y.keys() {
+                if !x.contains_key(k) {
+                    return Some(format!("{path}/{k}: missing in first"))
+                }
+            }
+            None
+        }
+        (Value::Array(x), Value::Array(y)) => {
+            if x.len() != y.len() {
+                return Some(format!(
+                    "{path}: array length {} vs {}", x.len(), y.len()
+                ))
+            }
+            for (i, (v, w)) in x.iter().zip(y).enumerate() {
+                if let Some(d) = first_difference(v, w, &format!("{path}[{i}]")) {
+                    return Some(d)
+                }
+            }
+            None
+        }
+        _ => {
+            if a == b { None } else {
+                let sa = a.to_string();
+                let sb = b.to_string();
+                Some(format!(
+                    "{path}: {} vs {}",
+                    &sa[..std::cmp::min(sa.len(), 80)],
+                    &sb[..std::cmp::min(sb.len(), 80)]
+                ))
+            }
+        }
+    }
+}
+
+/// Copies a namespace into a fresh in-memory storage, dropping snapshots.
+fn copy_without_snapshots(
+    storage: &StorageSystem, ns: &Ident, tag: u64,
+) -> Result<StorageSystem, String> {
+    let scratch = StorageSystem::new_memory(Some(tag));
+    let src = storage.open(ns).map_err(|e| e.to_string())?;
+    let dst = scratch.open(ns).map_err(|e| e.to_string())?;
+    dst.import(&src).map_err(|e| e.to_string())?;
+    let snapshot = Ident::make("snapshot.json");
+    for scope in dst.scopes().map_err(|e| e.to_string())? {
+        if dst.has(Some(&scope), snapshot).map_err(|e| e.to_string())? {
+            dst.drop_key(Some(&scope), snapshot).map_err(|e| e.to_string())?;
+        }
+    }
+    Ok(scratch)
+}
+
+/// Loads all instances of an aggregate type from a store into JSON.
+fn load_all<A: Aggregate>(
+    storage: &StorageSystem, ns: &Ident,
+) -> Result<Vec<(String, Value)>, String> {
+    let store = AggregateStore::<A>::create(storage, ns, false)
+        .map_err(|e| e.to_string())?;
+    let mut handles = store.list().map_err(|e| e.to_string())?;
+    handles.sort_by_key(|h| h.to_string());
+    let mut out = Vec::new();
+    for handle in handles {
+        let agg = store.get_latest(&handle).map_err(|e| {
+            format!("loading {handle}: {e}")
+        })?;
+        let mut value = serde_json::to_value(agg.as_ref())
+            .map_err(|e| e.to_string())?;
+        mask(&mut value);
+        out.push((handle.to_string(), value));
+    }
+    Ok(out)
+}
+
+fn compare_lists(
+    r: &mut Runner, what: &str, first: &str, second: &str,
+    a: &[(String, Value)], b: &[(String, Value)],
+) {
+    let names_a: Vec<&String> = a.iter().map(|x| &x.0).collect();
+    let names_b: Vec<&String> = b.iter().map(|x| &x.0).collect();
+    if names_a != names_b {
+        r.violation(
+            "C06", "entities_differ",
+            format!("{what}: {first} has {names_a:?}, {second} has {names_b:?}")
+        );
+        return
+    }
+    for ((name, x), (_, y)) in a.iter().zip(b) {
+        r.ext_c06_compared += 1;
+        if let Some(diff) = first_difference(x, y, "") {
+            r.violation(
+                "C06", "state_differs",
+                format!(
+                    "{what} '{name}': {first} and {second} differ at {diff}"
+                )
+            );
+        }
+    }
+}
+
+fn check_type<A: Aggregate>(
+    r: &mut Runner, inst: usize, what: &str, ns: &Ident,
+    live: Option<Vec<(String, Value)>>,
+) {
+    let storage_b;
+    let from_snapshot;
+    let from_scratch;
+    {
+        let i = r.world.inst(inst);
+        let storage = i.rt().storage();
+        storage_b = guarded(|| {
+            hooks::with_faults_suspended(|| load_all::<A>(storage, ns))
+        });
+        let tag = 0xC06_0000 + (r.step as u64) * 16 + inst as u64;
+        from_scratch = guarded(|| {
+            hooks::with_faults_suspended(|| {
+                let scratch = copy_without_snapshots(storage, ns, tag)?;
+                load_all::<A>(&scratch, ns)
+            })
+        });
+    }
+    from_snapshot = match storage_b {
+        Guarded::Ok(Ok(list)) => list,
+        Guarded::Ok(Err(err)) => {
+            r.violation(
+                "C06", "replay_fails",
+                format!("{what}: loading from snapshot + commands fails: {err}")
+            );
+            return
+        }
+        other => {
+            r.violation(
+                "C06", "replay_panics",
+                format!("{what}: loading from snapshot + commands: {other:?}")
+            );
+            return
+        }
+    };
+    let from_scratch = match from_scratch {
+        Guarded::Ok(Ok(list)) => list,
+        Guarded::Ok(Err(err)) => {
+            r.violation(
+                "C06", "replay_fails",
+                format!("{what}: replaying init + all commands fails: {err}")
+            );
+            return
+        }
+        other => {
+            r.violation(
+                "C06", "replay_panics",
+                format!("{what}: replaying init + all commands: {other:?}")
+            );
+            return
+        }
+    };
+    compare_lists(
+        r, what, "snapshot+commands", "init+all commands",
+        &from_snapshot, &from_scratch
+    );
+    if let Some(live) = live {
+        compare_lists(
+            r, what, "live", "snapshot+commands", &live, &from_snapshot
+        );
+    }
+}
+
+pub fn check(r: &mut Runner) {
+    for inst in 0..r.world.insts.len() {
+        if !r.world.inst(inst).is_up() {
+            continue
+        }
+        r.world.inst(inst).enter();
+        // Live views.
+        let live_cas = hooks::with_faults_suspended(|| {
+            let rt = r.world.inst(inst).rt();
+            let mut handles = rt.ca_manager().ca_handles().unwrap_or_default();
+            handles.sort_by_key(|h| h.to_string());
+            let mut out = Vec::new();
+            for handle in handles {
+                if let Ok(ca) = rt.ca_manager().get_ca(&handle) {
+                    let mut value = serde_json::to_value(ca.as_ref())
+                        .unwrap_or_default();
+                    mask(&mut value);
+                    out.push((handle.to_string(), value));
+                }
+            }
+            out
+        });
+        let live_proxy = hooks::with_faults_suspended(|| {
+            r.world.inst(inst).rt().ca_manager().get_trust_anchor_proxy()
+                .ok().map(|p| {
+                    let mut value = serde_json::to_value(p.as_ref())
+                        .unwrap_or_default();
+                    mask(&mut value);
+                    vec![("ta".to_string(), value)]
+                })
+        });
+        let live_signer = hooks::with_faults_suspended(|| {
+            r.world.inst(inst).rt().ca_manager().get_trust_anchor_signer()
+                .ok().map(|p| {
+                    let mut value = serde_json::to_value(p.as_ref())
+                        .unwrap_or_default();
+                    mask(&mut value);
+                    vec![("ta".to_string(), value)]
+                })
+        });
+        check_type::<krill::server::ca::CertAuth>(
+            r, inst, "CA", CASERVER_NS, Some(live_cas)
+        );
+        if live_proxy.is_some() {
+            check_type::<krill::server::taproxy::TrustAnchorProxy>(
+                r, inst, "TA proxy", TA_PROXY_SERVER_NS, live_proxy
+            );
+        }
+        if live_signer.is_some() {
+            check_type::<krill::tasigner::TrustAnchorSigner>(
+                r, inst, "TA signer", TA_SIGNER_SERVER_NS, live_signer
+            );
+        }
+        check_type::<krill::server::pubd::RepositoryAccess>(
+            r, inst, "repository access", PUBSERVER_NS, None
+        );
+        check_type::<krill::commons::crypto::dispatch::signerinfo::SignerInfo>(
+            r, inst, "signer info", SIGNERS_NS, None
+        );
+        check_type::<krill::server::properties::Properties>(
+            r, inst, "properties", PROPERTIES_NS, None
+        );
+        check_api_views(r, inst);
+        check_repo_content(r, inst);
+    }
+}
+
+/// API info structures from the live manager and from a second manager built
+/// on the same storage must agree.
+fn check_api_views(r: &mut Runner, inst: usize) {
+    let res = guarded(|| hooks::with_faults_suspended(|| {
+        let i = r.world.inst(inst);
+        let rt = i.rt();
+        let fresh = krill::server::ca::CaManager::new(rt.config(), rt.storage())
+            .map_err(|e| e.to_string())?;
+        let mut problems = Vec::new();
+        let mut handles = rt.ca_manager().ca_handles().unwrap_or_default();
+        handles.sort_by_key(|h| h.to_string());
+        for handle in handles {
+            let live = rt.ca_manager().get_ca(&handle)
+                .map_err(|e| e.to_string())?;
+            let other = fresh.get_ca(&handle).map_err(|e| {
+                format!("fresh manager cannot load {handle}: {e}")
+            })?;
+            let mut a = serde_json::to_value(live.as_ca_info()).unwrap_or_default();
+            let mut b = serde_json::to_value(other.as_ca_info()).unwrap_or_default();
+            mask(&mut a);
+            mask(&mut b);
+            sort_arrays(&mut a);
+            sort_arrays(&mut b);
+            // The union of the classes' resources is rendered by
+            // rpki-rs in a form that depends on the iteration order of a
+            // hash map when classes overlap (see known findings); compare
+            // it as a set and report a textual difference separately.
+            let ra = a.as_object_mut().and_then(|m| m.remove("resources"));
+            let rb = b.as_object_mut().and_then(|m| m.remove("resources"));
+            if ra != rb {
+                let canon = |v: &Option<Value>| -> String {
+                    let get = |k: &str| v.as_ref().and_then(|v| v.get(k))
+                        .and_then(|x| x.as_str()).unwrap_or("").to_string();
+                    match rpki::repository::resources::ResourceSet::from_strs(
+                        &get("asn"), &get("ipv4"), &get("ipv6")
+                    ) {
+                        Ok(set) => crate::model::Res::from_set(&set).to_string(),
+                        Err(_) => "unparsable".to_string(),
+                    }
+                };
+                if canon(&ra) == canon(&rb) {
+                    problems.push(format!(
+                        "TEXT:CertAuthInfo of {handle}: resources are the \
+                         same set but rendered differently: {} vs {}",
+                        ra.map(|v| v.to_string()).unwrap_or_default(),
+                        rb.map(|v| v.to_string()).unwrap_or_default()
+                    ));
+                }
+                else {
+                    problems.push(format!(
+                        "CertAuthInfo of {handle}: /resources differ: {:?} \
+                         vs {:?}", ra, rb
+                    ));
+                }
+            }
+            if let Some(d) = first_difference(&a, &b, "") {
+                problems.push(format!("CertAuthInfo of {handle}: {d}"));
+            }
+            let mut ra = serde_json::to_value(live.configured_roas())
+                .unwrap_or_default();
+            let mut rb = serde_json::to_value(other.configured_roas())
+                .unwrap_or_default();
+            sort_arrays(&mut ra);
+            sort_arrays(&mut rb);
+            if let Some(d) = first_difference(&ra, &rb, "") {
+                problems.push(format!(
+                    "configured ROAs of {handle} differ: {d}"
+                ));
+            }
+            for child in live.as_ca_info().children {
+                let ca = live.get_child(&child).map(|c| {
+                    serde_json::to_string(&c.to_info()).unwrap_or_default()
+                }).unwrap_or_default();
+                let cb = other.get_child(&child).map(|c| {
+                    serde_json::to_string(&c.to_info()).unwrap_or_default()
+                }).unwrap_or_default();
+                if ca != cb {
+                    problems.push(format!(
+                        "child info {child} of {handle} differs"
+                    ));
+                }
+            }
+            // The status view survives a restart as well.
+            let sa = serde_json::to_string(
+                &rt.ca_manager().get_ca_status(&handle).ok()
+            ).unwrap_or_default();
+            let sb = serde_json::to_string(
+                &fresh.get_ca_status(&handle).ok()
+            ).unwrap_or_default();
+            if sa != sb {
+                problems.push(format!("C19:status view of {handle} differs"));
+            }
+        }
+        Ok::<_, String>(problems)
+    }));
+    match res {
+        Guarded::Ok(Ok(problems)) => {
+            for p in problems {
+                if let Some(p) = p.strip_prefix("C19:") {
+                    r.violation("C19", "status_after_restart", p.to_string());
+                }
+                else if let Some(p) = p.strip_prefix("TEXT:") {
+                    r.violation(
+                        "C06", "api_resources_rendering_differs",
+                        p.to_string()
+                    );
+                }
+                else {
+                    r.violation("C06", "api_view_differs", p);
+                }
+            }
+        }
+        Guarded::Ok(Err(err)) => {
+            r.violation("C06", "replay_fails", err);
+        }
+        other => {
+            r.violation(
+                "C06", "replay_panics",
+                format!("second CA manager on the same storage: {other:?}")
+            );
+        }
+    }
+}
+
+/// The repository content log: a second repository manager on the same
+/// storage (snapshot + remaining WAL sets) must show what the live one does.
+fn check_repo_content(r: &mut Runner, inst: usize) {
+    let res = guarded(|| hooks::with_faults_suspended(|| {
+        let i = r.world.inst(inst);
+        let rt = i.rt();
+        if !rt.repo_manager().is_initialized().unwrap_or(false) {
+            return Ok(Vec::new())
+        }
+        let fresh = krill::server::pubd::RepositoryManager::new(
+            rt.config(), rt.storage()
+        ).map_err(|e| e.to_string())?;
+        let mut problems = Vec::new();
+        let mut a = rt.repo_manager().publishers().map_err(|e| e.to_string())?;
+        let mut b = fresh.publishers().map_err(|e| e.to_string())?;
+        a.sort_by_key(|p| p.to_string());
+        b.sort_by_key(|p| p.to_string());
+        if a != b {
+            problems.push(format!("publisher lists differ: {a:?} vs {b:?}"));
+            return Ok(problems)
+        }
+        for publisher in a {
+            let x = rt.repo_manager().get_publisher_details(publisher.clone())
+                .map_err(|e| e.to_string())?;
+            let y = fresh.get_publisher_details(publisher.clone())
+                .map_err(|e| e.to_string())?;
+            let mut fx: Vec<(String, String)> = x.current_files.iter()
+                .map(|f| (f.uri.to_string(), f.base64.to_string())).collect();
+            let mut fy: Vec<(String, String)> = y.current_files.iter()
+                .map(|f| (f.uri.to_string(), f.base64.to_string())).collect();
+            fx.sort();
+            fy.sort();
+            if fx != fy || x.base_uri != y.base_uri {
+                problems.push(format!(
+                    "content of publisher {publisher} differs between the \
+                     live server and a reload"
+                ));
+            }
+        }
+        let sa = rt.repo_manager().repo_stats().map_err(|e| e.to_string())?;
+        let sb = fresh.repo_stats().map_err(|e| e.to_string())?;
+        if sa.serial != sb.serial || sa.session != sb.session {
+            problems.push(format!(
+                "RRDP session/serial differ: {}/{} vs {}/{}",
+                sa.session, sa.serial, sb.session, sb.serial
+            ));
+        }
+        Ok::<_, String>(problems)
+    }));
+    match res {
+        Guarded::Ok(Ok(problems)) => {
+            for p in problems {
+                r.violation("C06", "repo_content_differs", p);
+            }
+        }
+        Guarded::Ok(Err(err)) => {
+            r.violation("C06", "replay_fails", format!("repository: {err}"));
+        }
+        other => {
+            r.violation(
+                "C06", "replay_panics",
+                format!("second repository manager: {other:?}")
+            );
+        }
+    }
+}
